@@ -67,6 +67,15 @@ CHECKS = {
        'after the program equals the dump before, mutators answer NO, CLOSE answers OK and deselects.',
   note=TRUST + 'One examining session; COPY into another writable mailbox is allowed. Outside: maildir, concurrent writers (C02).',
   technique='symbolic execution of the real session layer with z3, before/after store comparison'),
+ 'C17': dict(
+  text='Bounded model checking of histories (<= 3 quick / 4 thorough operations: SELECT, EXAMINE, CLOSE, APPEND, APPEND with a '
+       '\\Recent flag, APPEND elsewhere, COPY into the mailbox, STORE +/-/= \\Recent, NOOP) by 2-3 sessions on the real session '
+       'layer and dict backend with a symbolic UID base and symbolic sequence numbers: a ghost map records every selection that '
+       'ever reported a UID as \\Recent; at most one read-write selection per UID, never a read-only one, never claimed and '
+       'still stored, first read-write selector gets all unclaimed, RECENT numbers equal the \\Recent messages in the view, '
+       'STORE cannot change it.',
+  note=TRUST + 'Selections are kept alive by their connection state (no GC timing). Outside: maildir new/ directory.',
+  technique='bounded model checking by symbolic execution of the real session layer (z3), ghost ownership map'),
  'C18': dict(
   text='Metamorphic checks by bounded symbolic execution of the real parsers: parse/serialise/re-parse identity for '
        'QuotedString, AString, Flag, Number, SequenceSet over all buffers up to the bound; LOGIN with the user id '
